@@ -17,6 +17,13 @@
            statements `f(..);`, initialisers `int x = f(..);` and right-hand sides `x = f(..);` with
            arguments from the int-operand fragment; division at the root of an initialiser / right-hand
            side.  (Calls and divisions nested inside expressions are outside the fragment.)
+           GLOBALS: int and bool globals with literal initialisers (state-section words / bytes after
+           stack_end, in the order of first reference: globals_order / glob_addr / state_section_g),
+           read in any expression of any function (`OGlob g`, `BVar (BGlobal h)`), assigned by
+           `g = e;` (any int operand, also `-e`), `g = a / b;`, `g op= e;`, `g = f(..);`, `h = e;`;
+           `write(g is byte)`; a local may shadow a global by name (a scoping matter of the front
+           end: the model's indices are resolved).  A callee sees and may change the globals: callf
+           threads the pair (int globals, bool globals) and CRet returns it.
    Source semantics (Codegen/LowerStmtProofs.v 1): callf d f args evs res -- function f called
            with d bytes of stack below its frame pointer emits evs and returns (CRet v) or faults
            (CFault FDivZero | FStackOverflow).  STACK ACCOUNTING: a function faults with
@@ -27,7 +34,8 @@
            function exists, is well scoped, calls generated functions with the right number of
            arguments, has a guard constant that is a word; the entry point
            first), every word size, stack size and argument values, on ANY memory image with the
-           words hidc's state section prescribes (init_ok): the machine started at address 0 emits
+           words hidc's state section prescribes (init_ok: ap, fp, stack, arguments, all_is_win, and
+           the globals at their addresses ga / gb with their initial values ginit / binit): the machine started at address 0 emits
            exactly the source's bytes, then the flags of the way it ended (win | division_by_zero,
            error | stack_overflow, error), then sleeps forever.  In particular it never halts
            (C03 for these programs, with the trace). *)
@@ -38,44 +46,59 @@ Import ListNotations.
 Open Scope Z_scope.
 
 (* THE PROGRAM THEOREM *)
-Theorem C01_program_lowering_correct w (Hw : 2 <= w) funs stack args dft ga ginit cmem evs res m0 :
+Theorem C01_program_lowering_correct w (Hw : 2 <= w) funs stack args dft ga ginit gb binit cmem evs res m0 :
   let C := lower_program w funs in
   let lib := size C in
-  let code := code_of (resolve (hidc_regs_g w dft lib ga) (fun _ => 0) 0 C ++ stdlib_code w lib) in
+  let code := code_of (resolve (hidc_regs_gb w dft lib ga gb) (fun _ => 0) 0 C ++ stdlib_code w lib) in
   let n := Z.of_nat (length args) in
-  prog_ok_b w (length ginit) funs (length args) = true ->
+  prog_ok_b w (length ginit) (length binit) funs (length args) = true ->
   0 <= stack -> lib + stdlib_len <= Machine.W w -> (stack + n + 6) * w < Machine.W w / 2 ->
-  init_ok w stack args (lib + off_all_is_win) ga ginit m0 ->
-  callf w funs ((stack + n + 1) * w) 0 args ginit evs res ->
+  init_ok w stack args (lib + off_all_is_win) ga ginit gb binit m0 ->
+  callf w funs ((stack + n + 1) * w) 0 args (ginit, binit) evs res ->
   exists m', HidV.Sphinx.Halts.runs (Machine.act w code cmem) (mk 0 m0) (map EOut evs ++ result_flags res) (tnt lib m') /\
              ~ HidV.Sphinx.Halts.Halts (Machine.act w code cmem) (mk 0 m0) /\
              forall k, HidV.Sphinx.Halts.csteps (Machine.act w code cmem) (mk 0 m0)
                          (map EOut evs ++ result_flags res ++ repeat sleep_ev k) (tnt lib m').
-Proof. exact (@program_lowering_correct w Hw funs stack args dft ga ginit cmem evs res m0). Qed.
+Proof. exact (@program_lowering_correct w Hw funs stack args dft ga ginit gb binit cmem evs res m0). Qed.
 
 (* C03 for the fragment: a compiled program never halts, whatever its source run does *)
-Theorem C01_program_never_halts w (Hw : 2 <= w) funs stack args dft ga ginit cmem evs res m0 :
+Theorem C01_program_never_halts w (Hw : 2 <= w) funs stack args dft ga ginit gb binit cmem evs res m0 :
   let C := lower_program w funs in
   let lib := size C in
-  let code := code_of (resolve (hidc_regs_g w dft lib ga) (fun _ => 0) 0 C ++ stdlib_code w lib) in
+  let code := code_of (resolve (hidc_regs_gb w dft lib ga gb) (fun _ => 0) 0 C ++ stdlib_code w lib) in
   let n := Z.of_nat (length args) in
-  prog_ok_b w (length ginit) funs (length args) = true ->
+  prog_ok_b w (length ginit) (length binit) funs (length args) = true ->
   0 <= stack -> lib + stdlib_len <= Machine.W w -> (stack + n + 6) * w < Machine.W w / 2 ->
-  init_ok w stack args (lib + off_all_is_win) ga ginit m0 ->
-  callf w funs ((stack + n + 1) * w) 0 args ginit evs res ->
+  init_ok w stack args (lib + off_all_is_win) ga ginit gb binit m0 ->
+  callf w funs ((stack + n + 1) * w) 0 args (ginit, binit) evs res ->
   ~ HidV.Sphinx.Halts.Halts (Machine.act w code cmem) (mk 0 m0).
-Proof. exact (@program_never_halts w Hw funs stack args dft ga ginit cmem evs res m0). Qed.
+Proof. exact (@program_never_halts w Hw funs stack args dft ga ginit gb binit cmem evs res m0). Qed.
 
 (* every label of a compiled program is defined once (for every program: not part of the check) *)
 Theorem C01_program_labels_defined_once w funs : NoDup (deflabels (lower_program w funs)).
 Proof. exact (@program_labels_nodup w funs). Qed.
 
+(* hidc's layout of the globals (Model glob_addr: after stack_end, in the order of first reference,
+   a word per int global, a byte per bool global -- the order and sizes of state_section_g, tied
+   textually) meets the separation hypotheses of init_ok (io_g / io_gb lower bounds, io_gd, io_gbd),
+   for every program, when the globals 0..ng-1 / 0..nbg-1 are the ones the generated code refers to *)
+Theorem C01_program_globals_layout w stack nparams funs ng nbg : 0 <= w ->
+  (forall g, (g < ng)%nat -> In (GI g) (globals_order funs)) ->
+  (forall h, (h < nbg)%nat -> In (GB h) (globals_order funs)) ->
+  let ga := fun g => glob_addr w stack nparams funs (GI g) in
+  let gb := fun h => glob_addr w stack nparams funs (GB h) in
+  (forall g, (stack + Z.of_nat nparams + 6) * w <= ga g) /\ (forall h, (stack + Z.of_nat nparams + 6) * w <= gb h) /\
+  (forall g g', (g < ng)%nat -> (g' < ng)%nat -> g <> g' -> ga g + w <= ga g' \/ ga g' + w <= ga g) /\
+  (forall h h', (h < nbg)%nat -> (h' < nbg)%nat -> h <> h' -> gb h <> gb h') /\
+  (forall g h, (g < ng)%nat -> (h < nbg)%nat -> gb h + 1 <= ga g \/ ga g + w <= gb h).
+Proof. exact (@glob_addr_layout w stack nparams funs ng nbg). Qed.
+
 (* the scoping part of the static check is sound for the relation the theorems use *)
-Theorem C01_scoped_check_sound w ng cfb (lib : Prop) (cf : nat -> nat -> Prop) :
+Theorem C01_scoped_check_sound w ng nbg cfb (lib : Prop) (cf : nat -> nat -> Prop) :
   lib -> (forall f n, cfb f n = true -> cf f n) ->
-  (forall s ni nb il, sscoped_b w ng cfb ni nb il s = true -> sscoped w ng lib cf ni nb il s) /\
-  (forall ss ni nb il, ssscoped_b w ng cfb ni nb il ss = true -> ssscoped w ng lib cf ni nb il ss).
-Proof. exact (@scoped_b_ok w ng cfb lib cf). Qed.
+  (forall s ni nb il, sscoped_b w ng nbg cfb ni nb il s = true -> sscoped w ng nbg lib cf ni nb il s) /\
+  (forall ss ni nb il, ssscoped_b w ng nbg cfb ni nb il ss = true -> ssscoped w ng nbg lib cf ni nb il ss).
+Proof. exact (@scoped_b_ok w ng nbg cfb lib cf). Qed.
 
 (* satisfiability: a program with a recursive function (factorial), a call whose result is used, and a
    division that may fault
@@ -83,10 +106,10 @@ Proof. exact (@scoped_b_ok w ng cfb lib cf). Qed.
      empty @is_you(int a0) { int x = f1(a0); writeln(x); int q = x / (a0 - 5); writeln(q % 7); }
    it passes the check; hidc's image satisfies init_ok for every stack size and argument; the theorem
    gives its three ways to end; and the verified VM runs the resolved model output to the same traces *)
-Example C01_program_check_sat : prog_ok_b 2 0 px_funs 1 = true.
+Example C01_program_check_sat : prog_ok_b 2 0 0 px_funs 1 = true.
 Proof. exact px_ok. Qed.
 Example C01_program_image_sat stack a0 : 0 <= stack <= 100 -> - 1000 <= a0 <= 1000 ->
-  init_ok 2 stack [a0] (px_lib + off_all_is_win) (fun _ => 0) [] (px_mem stack a0).
+  init_ok 2 stack [a0] (px_lib + off_all_is_win) (fun _ => 0) [] (fun _ => 0) [] (px_mem stack a0).
 Proof. exact (px_init stack a0). Qed.
 (* 40 words of stack, a0 = 4: prints "24\n4\n" (4! = 24, 24 / -1 = -24, -24 % 7 = 4), returns: flag win *)
 Example C01_program_returns_sat : exists m',
@@ -118,13 +141,57 @@ Example C01_program_vm_run_sat :
   end.
 Proof. exact program_vm_run_ex. Qed.
 
+(* satisfiability with globals: an int global and a bool global, read and assigned (also `g /= e`,
+   `-g`, `write(g is byte)`)
+     int g0 = 5;  bool h0 = false;
+     empty @is_you(int a0) { g0 = g0 + a0; h0 = g0 > 6; if (h0) { write('Y'); } else { write('N'); }
+                             write(g0 is byte); writeln(g0); g0 /= a0 - 4; writeln(-g0); }
+   the addresses are the model's layout (glob_addr: var_g0_0 at stack_end, var_h0_0 after it); the
+   image satisfies init_ok; the theorem gives both ways to end; the verified VM agrees *)
+Example C01_program_globals_check_sat : prog_ok_b 2 1 1 gx_funs 1 = true.
+Proof. exact gx_ok. Qed.
+Example C01_program_globals_layout_sat :
+  glob_addr 2 40 1 gx_funs (GI 0) = 94 /\ glob_addr 2 40 1 gx_funs (GB 0) = 96.
+Proof. exact gx_layout. Qed.
+Example C01_program_globals_image_sat a0 : - 1000 <= a0 <= 1000 ->
+  init_ok 2 40 [a0] (gx_lib + off_all_is_win) (fun g => glob_addr 2 40 1 gx_funs (GI g)) [5]
+          (fun h => glob_addr 2 40 1 gx_funs (GB h)) [0] (gx_mem a0).
+Proof. exact (gx_init a0). Qed.
+(* a0 = 2: g0 = 7, h0 = true: prints "Y", the byte 7, "7\n", then g0 = 7 / -2 = -4: "4\n"; flag win *)
+Example C01_program_globals_returns_sat : exists m',
+  HidV.Sphinx.Halts.runs (Machine.act 2 (code_of gx_prog) (zmem 0)) (mk 0 (gx_mem 2)) (map EOut gx_out2 ++ [EFlag 0]) (tnt gx_lib m') /\
+  ~ HidV.Sphinx.Halts.Halts (Machine.act 2 (code_of gx_prog) (zmem 0)) (mk 0 (gx_mem 2)).
+Proof. exact program_globals_ex. Qed.
+(* a0 = 4: g0 = 9, prints "Y", the byte 9, "9\n", then 9 / 0: flags division_by_zero, error *)
+Example C01_program_globals_faults_sat : exists m',
+  HidV.Sphinx.Halts.runs (Machine.act 2 (code_of gx_prog) (zmem 0)) (mk 0 (gx_mem 4)) (map EOut gx_out4 ++ [EFlag 3; EFlag 1]) (tnt gx_lib m') /\
+  ~ HidV.Sphinx.Halts.Halts (Machine.act 2 (code_of gx_prog) (zmem 0)) (mk 0 (gx_mem 4)).
+Proof. exact program_globals_fault_ex. Qed.
+Example C01_program_globals_vm_run_sat :
+  match run_program 2 (gx_bytes 2) [] gx_prog [] mon_none 4000 with
+  | OAbsorbed evs _ _ => firstn 7 evs = map EOut gx_out2 ++ [EFlag 0]
+  | _ => False
+  end /\
+  match run_program 2 (gx_bytes 4) [] gx_prog [] mon_none 4000 with
+  | OAbsorbed evs _ _ => firstn 6 evs = map EOut gx_out4 ++ [EFlag 3; EFlag 1]
+  | _ => False
+  end.
+Proof. exact program_globals_vm_run_ex. Qed.
+
 Print Assumptions C01_program_lowering_correct.
 Print Assumptions C01_program_never_halts.
 Print Assumptions C01_program_labels_defined_once.
 Print Assumptions C01_scoped_check_sound.
+Print Assumptions C01_program_globals_layout.
 Print Assumptions C01_program_check_sat.
 Print Assumptions C01_program_image_sat.
 Print Assumptions C01_program_returns_sat.
 Print Assumptions C01_program_divides_by_zero_sat.
 Print Assumptions C01_program_overflows_sat.
 Print Assumptions C01_program_vm_run_sat.
+Print Assumptions C01_program_globals_check_sat.
+Print Assumptions C01_program_globals_layout_sat.
+Print Assumptions C01_program_globals_image_sat.
+Print Assumptions C01_program_globals_returns_sat.
+Print Assumptions C01_program_globals_faults_sat.
+Print Assumptions C01_program_globals_vm_run_sat.
